@@ -315,6 +315,7 @@ def drive(modname: str, tier: str, base_seed: int, jobs: int, runs_override: int
     }
     errors: list = []
     stopped_early = False
+    known_early = load_known()
     ctx = mp.get_context("fork")
     worker_cap = int(max(120, wall * 3))
     with cf.ProcessPoolExecutor(max_workers=jobs, mp_context=ctx) as ex:
@@ -353,7 +354,8 @@ def drive(modname: str, tier: str, base_seed: int, jobs: int, runs_override: int
                 errors.extend(a["errors"])
                 if a.get("cut_short"):
                     stopped_early = True
-                if time.time() - t0 < wall and len(errors) < 5 and len(agg["violations"]) < 400:
+                n_unknown = sum(1 for v in agg["violations"] if match_known(known_early, prop, v["sig"]) is None)
+                if time.time() - t0 < wall and len(errors) < 5 and n_unknown < 400:
                     submit_next()
                 else:
                     stopped_early = stopped_early or next(it, None) is not None
@@ -371,13 +373,18 @@ def drive(modname: str, tier: str, base_seed: int, jobs: int, runs_override: int
         by_sig.setdefault(v["sig"], []).append(v)
     exit_code = 0
     known_hit: dict[str, int] = {}
+    known_lines: dict[int, dict] = {}  # one KNOWN-FINDING line per listed finding, whatever the number of signatures it covers
     new_viol: list[str] = []
     for sig in sorted(by_sig):
         vs = by_sig[sig]
         k = match_known(known, prop, sig)
         if k is not None:
             known_hit[sig] = len(vs)
-            print(f"KNOWN-FINDING: property={prop} {k['what']} [signature={sig}; {len(vs)} run(s), e.g. seed {vs[0]['seed']}]")
+            ent = known_lines.setdefault(id(k), {"k": k, "sigs": [], "runs": 0, "seed": vs[0]["seed"]})
+            ent["sigs"].append(sig)
+            ent["runs"] += len(vs)
+            if len(ent["sigs"]) > 3:
+                continue
             try:  # keep a current, minimised example of the listed finding next to the other replay files
                 v0 = min(vs, key=lambda x: x["seed"])
                 plan0, res0 = run_seed(mod, v0["seed"], tier)
@@ -421,6 +428,9 @@ def drive(modname: str, tier: str, base_seed: int, jobs: int, runs_override: int
         print(f"VIOLATION property={prop} replay={path}")
         new_viol.append(sig)
         exit_code = 1
+    for ent in known_lines.values():
+        sigs = ", ".join(ent["sigs"][:8]) + (" ..." if len(ent["sigs"]) > 8 else "")
+        print(f"KNOWN-FINDING: property={prop} {ent['k']['what']} [signatures: {sigs}; {ent['runs']} run(s), e.g. seed {ent['seed']}]")
 
     # ---- evidence ---------------------------------------------------------------------
     wall_s = time.time() - t0
